@@ -46,6 +46,15 @@ class DefinitionSyntaxError(errors.DefinitionSyntaxError, fp.ParsingError):
     def set_location(self, value: str) -> None:
         super().__setattr__("location", value)
 
+    def __reduce__(self):
+        # The inherited __reduce__ only carries msg: keep the location and the
+        # statement (position and raw text) so that the message survives pickling.
+        return (
+            self.__class__,
+            (self.msg, self.location),
+            {"_statement": self._statement},
+        )
+
 
 @dataclass(frozen=True)
 class ImportDefinition(fp.IncludeStatement[ParserConfig]):
